@@ -155,9 +155,11 @@ def empty_with_dicts(rnd, n):
         k = rnd.choice([1, 2, 3, 10])
         d = {x: rnd.choice([1, "s", None]) for x in rnd.sample(["a", "b", "c"], rnd.randrange(1, min(k, 3) + 1))}
         d2 = dict(d)
-        shape = rnd.choice(["top", "top_rev", "list", "field", "tuple", "twice"])
+        shape = rnd.choice(["top", "top_rev", "list", "field", "tuple", "twice", "lists", "lists_rev", "nested_lists", "list_of_lists"])
         vs = {"top": [{}, d], "top_rev": [d, {}], "list": [[{}, d]], "field": [{"f": {}}, {"f": d}], "tuple": [({},), (d,)],
-              "twice": [{}, d, d2, {}]}[shape]
+              "twice": [{}, d, d2, {}],
+              # one list holds only empty dicts, another only str-keyed ones (two calls, or two elements of one list)
+              "lists": [[{}], [d]], "lists_rev": [[d], [{}, {}]], "nested_lists": [[[{}]], [[d]]], "list_of_lists": [[[{}], [d]]]}[shape]
         out.append((k, vs))
     return out
 
@@ -180,6 +182,39 @@ def equal_hashables(rnd, n):
     return out
 
 
+async def _agen():
+    yield 1
+
+
+def runtime_objects(rnd, n):
+    """Objects of the interpreter's own classes that merely resemble something the inference has a rule for: an async
+    generator object is not a generator (and not an Iterator); alone, nested, next to real generators"""
+    out = []
+    for _ in range(n):
+        a = _agen()
+        g = (i for i in range(2))
+        vs = rnd.choice([[a], [[a]], [a, 1], [(a, 1)], [{"k": a}], [a, g], [{a}], [[a], [g]]])
+        out.append((rnd.choice([0, 3]), vs))
+    return out
+
+
+def very_long_lists(rnd, n):
+    """Lists well beyond a thousand elements whose LAST elements differ from all the earlier ones (another class, a dict
+    lacking a key the earlier ones have): every element counts, however long the list"""
+    out = []
+    for _ in range(n):
+        ln = rnd.choice([1024, 1025, 1030, 2050])
+        kind = rnd.choice(["late_str", "late_missing_key", "late_none"])
+        if kind == "late_str":
+            big = list(range(ln)) + ["s"]
+        elif kind == "late_none":
+            big = [f"s{i}" for i in range(ln)] + [None, None]
+        else:
+            big = [{"name": "n", "id": i % 7} for i in range(ln)] + [{"id": 1} for _ in range(3)]
+        out.append((rnd.choice([0, 3]), rnd.choice([[big], [big, []], [{"k": big}]])))
+    return out
+
+
 def generate(seed, n_random, with_small_scope, extra_cases=()):
     """Returns (ct, cases) with cases = list of dict(k, vs, impl, term, nontrivial)."""
     ct = common.ClassTable()
@@ -196,6 +231,8 @@ def generate(seed, n_random, with_small_scope, extra_cases=()):
     raw.extend(long_lists(rnd, max(12, n_random // 100)))
     raw.extend(empty_with_dicts(rnd, max(30, n_random // 40)))
     raw.extend(subset_typed_dicts(rnd, max(30, n_random // 40)))
+    raw.extend(runtime_objects(rnd, max(16, n_random // 100)))
+    raw.extend(very_long_lists(rnd, max(6, n_random // 400)))
     for i in range(n_random):
         k = rnd.choice(KS)
         raw.append((k, g.values()))
